@@ -200,3 +200,58 @@ func CorpusRelock(o sink) {
 	// the all-honest-leaders member: X's own re-proposal, Y proposes from the locks it hears
 	RelockSchedule(o, "corpus/relock-stale-view/honest-leaders", relock{byz: 0, X: 1, Y: 2, Z: 3, lead: [4]int{3, 2, 1, 2}, gaps: [3]int{0, 1, 0}})
 }
+
+// CorpusHighQcOneHash: every replica locks on (B, R) in round 0 and only replica 3 commits; in round 1 the Byzantine
+// leader attaches the genuine lock certificate of (B, R) as HighQc to a proposal that differs from it in exactly one of
+// (block, results). SafeNode's justification check must reject it (ErrMismatchedProposals): a check that demands BOTH
+// hashes to differ lets the locked replicas vote through the SAFETY branch, lock and commit the other proposal.
+func CorpusHighQcOneHash(o sink, variant string) {
+	cfg := bftsim.Config{N: 4, Powers: []uint64{1, 1, 1, 1}, Byz: []int{0}, Root0: 10}
+	is0 := func(i int) bool { return i == 0 }
+	cfg.Salt = findSalt(cfg, map[bftsim.VR]func(int) bool{{Root: 10, Round: 0}: is0, {Root: 10, Round: 1}: is0})
+	r := newRun(o, "corpus/highqc-binds-one-hash/different-"+variant, cfg)
+	r.sigSuffix = "highqc-binds-one-hash"
+	s := r.s
+	A := all(s)
+	// round 0: B certified, everybody locks, only replica 3 commits
+	r.elect(A, nil)
+	r.byzPropose(0, nil, "fresh")
+	r.deliverAll(nil)
+	r.phases([]int{1, 2, 3}) // PROPOSE
+	r.phases(A)              // PROPOSE_VOTE
+	r.deliverAll(nil)
+	r.phases(A) // PRECOMMIT
+	r.deliverAll(nil)
+	r.phases(A) // PRECOMMIT_VOTE: all lock on (B, R)
+	r.deliverAll(nil)
+	r.phases(A) // COMMIT
+	r.deliverAll(func(e *bftsim.Envelope) bool { return e.To == 3 })
+	r.dropAll()
+	r.phases(A) // COMMIT_PROCESS: 3 commits, the others interrupt
+	live := liveOf(s, A)
+	r.toElection(live)
+	cert := s.FindCert(lib.Phase_PROPOSE_VOTE, 1, func(v bftsim.VR) bool { return v.Round == 0 })
+	if cert == nil || !committed(s, 3) {
+		r.o.Count("highqc-one-hash:setup-failed")
+		r.end()
+		return
+	}
+	// round 1: the mismatching proposal justified by the genuine lock certificate
+	r.elect(live, nil)
+	var res1 bftsim.StepResult
+	if s.Nodes[0].B.Phase == bft.Propose {
+		envs := r.byzPropose(0, cert, "lock-certificate-with-different-"+variant)
+		s.ByzMismatchProposal(0, envs, variant)
+		r.flush()
+		s.ByzForgetLock(0)
+		r.deliverAll(nil)
+		r.phases([]int{1, 2}) // PROPOSE
+		res1 = r.phase(1)     // PROPOSE_VOTE
+		r.phase(2)
+		r.phase(0)
+		r.deliverAll(nil)
+		r.runRound(live, 0)
+	}
+	r.o.Sample(fmt.Sprintf("%s: locked replica 1 on the mismatching proposal: interrupted=%v why=%s; commits: %s", r.name, res1.Interrupted, res1.Why, commitsStr(s)))
+	r.end()
+}
